@@ -520,3 +520,106 @@ def g9_prefix_sign(ctx):
 
 
 RULES = [('G9', g9_prefix_sign), ('G1', g1_ladder), ('G2', g2_left_fold), ('G3', g3_tables), ('G4', g4_division), ('G5', g5_suffixes), ('G6', g6_implicit), ('G7', g7_cursor), ('G8', g8_stage_order)]
+
+
+def _arg_in_callers(ctx, b, argi, depth):
+    """alternatives of argument `argi` (1-based) of b over all its call sites: [(text, operator chars, site)]"""
+    if depth >= 3:
+        raise AnchorLost('%s: the scan start is passed through more than two calls' % fn_key(b.path))
+    out = []
+    n = 0
+    for caller in ctx.facts.src_bodies():
+        for bid, t in caller.calls():
+            c = t.get('callee')
+            if not c or c['path'] != b.path or len(t['args']) < argi:
+                continue
+            n += 1
+            e = caller.expr(t['args'][argi - 1])
+            for a, conds in alternatives(caller, e):
+                sa = strip(a)
+                if sa[0] == 'arg':
+                    out += _arg_in_callers(ctx, caller, sa[1], depth + 1)
+                else:
+                    out.append((render(a), _op_chars(conds), t['loc']))
+    if not n:
+        raise AnchorLost('%s takes its scan start as a parameter but is never called' % fn_key(b.path))
+    return out
+
+
+def _scan_start_chars(ctx, b, local, at_block):
+    """How the scan cursor `local` of function b is initialised before block `at_block`: list of (text of the initial value,
+    set of operator characters whose test selects it, site) over all definitions outside the loop of `at_block`; a parameter
+    is followed into the callers (helpers are spliced by E0b)."""
+    out = []
+    loop = [L for L in b.loops() if at_block in L['body']]
+    inside = min(loop, key=lambda L: len(L['body']))['body'] if loop else set()
+    defs = [d for d in b.defs().get(local, []) if d[0] not in inside]
+    if 1 <= local <= b.argc:
+        out += _arg_in_callers(ctx, b, local, 0)
+    for (bid, kind, x) in defs:
+        e = b.def_expr(bid, kind, x, 1, frozenset())
+        conds = tuple((d, v) for (_, d, v) in b.conditions(bid))
+        for a, c2 in alternatives(b, e, _conds=conds):
+            sa = strip(a)
+            if sa[0] == 'arg':
+                out += _arg_in_callers(ctx, b, sa[1], 0)
+            else:
+                out.append((render(a), _op_chars(c2), x.get('loc')))
+    return out
+
+
+def _op_chars(conds):
+    """characters c such that the conditions contain the test `token is Operator(c)` taken positively"""
+    chars = set()
+    for d, v in conds:
+        if re.search(r'as Operator\.0$', render(d)) and not isinstance(v, tuple):
+            chars |= set(chr(x) if isinstance(x, int) else x for x in v)
+    return chars
+
+
+def g10_cleaner_start(ctx):
+    """G10 token_cleaner drops every Text token of the calculated part (a magnitude suffix leaves one): its scan starts at 0,
+    or behind the first '=' - and behind nothing else, so a suffix in front of a parenthesis is dropped like any other"""
+    ctx.rule('G10', 'token_cleaner: Text tokens are dropped from the start of the calculation', floor=2)
+    b = ctx.facts.one(r"^tokinizer::Tokinizer::<'a>::token_cleaner$")
+    ctx.fn(b)
+    rm = [(bid, t) for bid, t in b.calls(r'Vec::<.*>::remove$') if render(b.expr(t['args'][0])).endswith('.tokens')]
+    if len(rm) != 1:
+        raise AnchorLost('token_cleaner: expected one removal from tokens, found %d' % len(rm))
+    bid, t = rm[0]
+    tadt = ctx.facts.adts['types::TokenType']
+    textd = [v['discr'] for v in tadt['variants'] if v['name'] == 'Text'][0]
+    conds = b.cond_text(bid)
+    if any(re.search(r'discr\(.*tokens.*\)=\[%d\]' % textd, c) for c in conds):
+        ctx.ok('G10', 'the removed token is a Text token', 'guard-dom', site=t['loc'])
+    else:
+        ctx.finding('G10', 'token_cleaner/removes', 'token_cleaner removes a token that is not tested to be Text (%s)' % conds[-2:], site=t['loc'])
+    from ..facts import opplace
+    p = opplace(t['args'][1])
+    cur = None
+    if p is not None and not p['proj']:
+        ds = b.defs().get(p['local'], [])
+        if len(ds) == 1 and ds[0][1] == 'stmt' and ds[0][2]['rv'] == 'use':
+            q = opplace(ds[0][2]['ops'][0])
+            if q and not q['proj']:
+                cur = q['local']
+        elif p['local'] in b.names:
+            cur = p['local']
+    if cur is None:
+        raise AnchorLost('token_cleaner: the index of the removed token is not a cursor variable')
+    inits = _scan_start_chars(ctx, b, cur, bid)
+    if not inits:
+        raise AnchorLost('token_cleaner: no initial value of the scan cursor found')
+    for txt, chars, site in inits:
+        if txt == '0' and not chars:
+            ctx.ok('G10', 'scan starts at 0 when the line has no "="', 'const', site=site)
+        elif chars == {'='}:
+            ctx.ok('G10', 'scan starts behind the first "=" (%s)' % txt[:60], 'guard-dom', site=site)
+        elif txt == '0':
+            ctx.ok('G10', 'scan starts at 0', 'const', site=site)
+        else:
+            ctx.finding('G10', 'token_cleaner/start', 'Text tokens are only dropped from %s on, selected by the operator(s) %s: a magnitude suffix in front of it stays in the token list and ends the expression there'
+                        % (txt[:80], sorted(chars) or '?'), site=site)
+
+
+RULES.append(('G10', g10_cleaner_start))
